@@ -392,6 +392,14 @@ pub fn run(ctx: &Ctx) -> Outcome {
     for t in refs::TYPES.iter() {
         sizes.push((t.w, t.h, false));
     }
+    // tall and wide pages, every pixel: rows / columns just beyond 255, 256 and 2040 (8 x 255)
+    let n_tall = {
+        let before = sizes.len();
+        for d in [(2u32, 257u32), (1, 264), (8, 300), (257, 3), (1021, 8), (2, 2041), (4, 256)] {
+            sizes.push((d.0, d.1, false));
+        }
+        sizes.len() - before
+    };
     // (the last three are pages of 1 MiB and just around it: 65 536 chunks of 16 bytes)
     for big in [(1u32, 255u32), (1020, 255), (4096, 64), (65532, 8), (65_535, 128), (65_536, 128), (262_144, 33)] {
         sizes.push((big.0, big.1, true));
@@ -400,7 +408,7 @@ pub fn run(ctx: &Ctx) -> Outcome {
     let n_large_random = if ctx.quick() { 12 } else { 600 };
     {
         let mut rng = ctx.rng("large-sizes", 0);
-        while sizes.len() < box_n + 11 + 7 + n_large_random {
+        while sizes.len() < box_n + 11 + n_tall + 7 + n_large_random {
             let hmax = if rng.bool() { 300 } else { 4000 };
             let h = 1 + rng.below(hmax) as u32;
             let wmax = if rng.bool() { 3000 } else { 70_000 };
@@ -446,7 +454,7 @@ pub fn run(ctx: &Ctx) -> Outcome {
     });
     let floors = vec![
         floor("every size of the box checked", report.get("box_sizes_done") == box_n as u64, report.get("box_sizes_done")),
-        floor("11 real sizes checked", report.get("real_sizes_done") == 11, report.get("real_sizes_done")),
+        floor("11 real sizes and the tall / wide sizes checked pixel by pixel", report.get("real_sizes_done") == 11 + n_tall as u64, report.get("real_sizes_done")),
         floor("every large size checked", report.get("large_sizes_done") == n_large, report.get("large_sizes_done")),
         floor("all 256 ids", report.set_len("ids") == 256, report.set_len("ids")),
         floor("sizes whose data ends on a 16-byte boundary", report.get("sizes_ending_on_16_byte_boundary") > 0, report.get("sizes_ending_on_16_byte_boundary")),
